@@ -471,6 +471,32 @@ def aliases : Op → Bool
   | .fill (.slot _) | .viewFill _ _ _ _ (.slot _) => true
   | _ => false
 
+/-! ## the proposed repair of F3: copy an element argument before reallocating / shifting
+(`notes/C26.md`: `if (isElementOfThisArray(value)) { T valueCopy(value); … }`) -/
+
+/-- the element index when the repaired code takes its private copy first -/
+def copySlot (a : Arr) : Op → Option Nat
+  | .pushBack (.slot i) => if a.cap = a.size then some i else none
+  | .insert _ (.slot i) => some i
+  | .insertN _ n (.slot i) => if n ≠ 0 then some i else none
+  | .resizeFill n (.slot i) => if n > a.cap then some i else none
+  | _ => none
+
+def Op.withValue (v : Elt) : Op → Op
+  | .pushBack _ => .pushBack (.ext v)
+  | .insert p _ => .insert p (.ext v)
+  | .insertN p n _ => .insertN p n (.ext v)
+  | .resizeFill n _ => .resizeFill n (.ext v)
+  | op => op
+
+def stepFixed (mx : Nat) (a : Arr) (L : Log) (op : Op) : Res :=
+  match copySlot a op with
+  | some i =>
+    let (v, L) := read a.cells L i                                   -- T valueCopy(value);
+    let r := step mx a { L with ctor := L.ctor + 1 } (op.withValue v)
+    { r with log := { r.log with dtor := r.log.dtor + 1 } }          -- ~valueCopy
+  | none => step mx a L op
+
 /-! ## the specification: what `std::vector` does -/
 
 def Ref.value (vs : List Elt) : Ref → Elt
